@@ -143,7 +143,7 @@ def run(ctx):
     if len(bases) != LAST + 1 or len(singles) < 3000:
         raise vlib.Inconclusive("too few vectors: %d bases, %d deviations" % (len(bases), len(singles)))
     envs = [v for v in singles if v["devs"][0]["k"].startswith("@env.")]
-    if len(envs) < 100:
+    if len(envs) < 50:
         raise vlib.Inconclusive("too few environment vectors: %d" % len(envs))
     if not any(v["err"] for v in singles) or not any(len(v["oks"]) > 1 for v in singles):
         raise vlib.Inconclusive("vacuous: no vector admits an error / several outcomes")
@@ -154,12 +154,12 @@ def run(ctx):
         # Below schema 5 every upgrade path hashes a password (bcrypt, 60 ms).
         # A deviation of a key that only steps >= 6 concern is enumerated
         # again on the golden files of schema 5..; the quick tier replays a
-        # seeded quarter of those documents (the thorough tier all of them).
+        # seeded 15 % of those documents (the thorough tier all of them).
         early = {"schema_version", "auth_name", "auth_pass", "users", "coredns", "dns", "dns.bootstrap_dns",
                  "clients", "zz_extra", "dns.zz_extra"}
         replayed_singles = [v for v in singles if v["start"] >= 5 or v["devs"][0]["k"] in early
                             or v["devs"][0]["k"].startswith("@env.")
-                            or v["devs"][0]["k"].startswith("cl0") or rng.random() < 0.25]
+                            or v["devs"][0]["k"].startswith("cl0") or rng.random() < 0.15]
     allv = sorted(bases.values(), key=lambda v: v["v"]) + docs + fams + replayed_singles
 
     # ---- pairs (thorough): all generated for v >= 5, a seeded sample below
@@ -252,7 +252,7 @@ def run(ctx):
         "exhaustive": False,
         "exhaustive_documents": "thorough: every single-deviation document and baseline is replayed, pair documents "
                                 "starting below schema 5 are a seeded sample of 600; quick: below schema 5 a seeded "
-                                "quarter of the documents whose deviation only steps >= 6 concern",
+                                "15 % of the documents whose deviation only steps >= 6 concern",
         "split_points": "thorough: all k for documents starting at schema >= 5, 3 seeded k below; "
                         "quick: 3 seeded k (one k for a quarter of the documents below schema 5)",
         "samples": samples,
